@@ -27,6 +27,7 @@ type Solver struct {
 	out     *bufio.Reader
 	stack   [][]cmdEntry
 	timeout int // ms per check-sat
+	curTimeout int
 	Checks  int
 	Time    time.Duration
 	dead    bool
@@ -56,6 +57,7 @@ func (s *Solver) start() {
 	s.dead = false
 	io.WriteString(s.in, solverPrelude)
 	fmt.Fprintf(s.in, "(set-option :timeout %d)\n", s.timeout)
+	s.curTimeout = s.timeout
 }
 
 func (s *Solver) restart() {
@@ -163,11 +165,33 @@ func (s *Solver) readUntilMarker(limit time.Duration) ([]string, bool) {
 }
 
 // CheckSat returns "sat", "unsat" or "unknown" for the current stack.
-func (s *Solver) CheckSat() string {
+func (s *Solver) CheckSat() string { return s.CheckSatT(s.timeout) }
+
+// CheckSatT: check-sat with an explicit time limit in milliseconds.
+func (s *Solver) CheckSatT(ms int) string {
+	if ms != s.curTimeout {
+		fmt.Fprintf(s.in, "(set-option :timeout %d)\n", ms)
+		s.curTimeout = ms
+	}
 	t0 := time.Now()
-	defer func() { s.Checks++; s.Time += time.Since(t0) }()
+	defer func() {
+		s.Checks++
+		d := time.Since(t0)
+		s.Time += d
+		if d > time.Second && os.Getenv("GVC_SLOW") != "" {
+			top := s.stack[len(s.stack)-1]
+			last := ""
+			if len(top) > 0 {
+				last = top[len(top)-1].z3
+			}
+			fmt.Fprintf(os.Stderr, "slow check %.1fs depth=%d last=%s\n", d.Seconds(), len(s.stack), last)
+			if f := os.Getenv("GVC_SLOW_DUMP"); f != "" {
+				os.WriteFile(f, []byte(s.Script(nil, "z3")), 0o644)
+			}
+		}
+	}()
 	fmt.Fprintf(s.in, "(check-sat)\n(echo \"%s\")\n", marker)
-	lines, ok := s.readUntilMarker(time.Duration(s.timeout)*time.Millisecond + 8*time.Second)
+	lines, ok := s.readUntilMarker(time.Duration(ms)*time.Millisecond + 8*time.Second)
 	if !ok {
 		s.restart()
 		return "unknown"
